@@ -18,7 +18,10 @@ Placements == {"backend", "frontend"}
 PTypes     == {"exact", "prefix", "begin"}
 Ranges     == {"default", "invalid", "exhausted"}
 
-Cases == [url : URLs, oauth : OAuths, placement : Placements, ptype : PTypes, lua : BOOLEAN, range : Ranges]
+(* open: the unprotected path that shares the backend sorts after (/pub) or before (/aaa) the protected one *)
+Opens      == {"after", "before"}
+
+Cases == [url : URLs, oauth : OAuths, placement : Placements, ptype : PTypes, lua : BOOLEAN, range : Ranges, open : Opens]
 
 SeqT(t) == [i \in 1..Len(t) |-> t[i]]
 
